@@ -137,11 +137,12 @@ CLAIMED = {
              "display entries are outside the model (entry count only).", design="5/C10",
         technique="Coq proof (framing theorems C01-C03 + filter lemma + network determinacy) + application-level correspondence"),
     "C11": dict(
-        text="Theorem C11_k_writers (axiom-free, Writers.v): main sends every message to k writer goroutines in turn over bounded "
-             "channels, closes them, waits for every writer (only if the regenerated fact waits_rtcmfilter says the code does) and "
+        text="Theorems C11_k_writers / C11_k_no_deadlock (axiom-free, Writers.v): main sends every message to k writer goroutines in turn over "
+             "channels of any capacity >= 1, buffered or unbuffered, closes them, waits for every writer (only if the regenerated fact waits_rtcmfilter says the code does) and "
              "returns; for every k, message list, capacities, latencies and schedule, in every reachable configuration in which "
              "main has returned every writer has written exactly the messages in order (proved for ANY straight-line main "
-             "program that never sends after close and waits before return). "
+             "program that never sends after close and waits before return), and a configuration in which nothing can move is "
+             "the finished one (no deadlock). "
              "Theorems C11_flushed_displayrtcm3 / C11_flushed_rtcmfilter / C11_no_deadlock (axiom-free) over a two-process network "
              "(main: send every message on a bounded channel, close it, wait for the writer iff the generated fact waits_<app> "
              "says the source does, return; writer: receive, hold the message for an arbitrary latency, write, signal at close) "
